@@ -63,7 +63,8 @@ Definition file_len (f:fname) : M N :=
 (* seek(Start(pos)) + read_exact(n bytes) *)
 Definition read_at (f:fname) (pos n:N) : M (list byte) :=
   fun fs => match fs_get fs f with
-            | Some c => if (pos + n <=? len c)%N then (fs, Ok (slice pos (pos + n) c)) else (fs, Err EOther)
+            | Some c => if (n =? 0)%N then (fs, Ok [])           (* seeking past the end is fine, reading nothing too *)
+                        else if (pos + n <=? len c)%N then (fs, Ok (slice pos (pos + n) c)) else (fs, Err EOther)
             | None => (fs, Err EOther)
             end.
 (* read_to_end from pos *)
@@ -75,7 +76,7 @@ Definition append (f:fname) (b:list byte) : M unit :=
 (* File::set_len: truncate, or extend with zeros *)
 Definition set_file_len (f:fname) (n:N) : M unit :=
   fun fs => match fs_get fs f with
-            | Some c => (fs_put fs f (take n c ++ repeat x00 (N.to_nat n - length c)), Ok tt)
+            | Some c => (fs_put fs f (take n c ++ repeat x00 (N.to_nat (n - len c))), Ok tt)
             | None => (fs, Err EOther)
             end.
 (* OpenOptions::create_new(true) *)
